@@ -277,7 +277,7 @@ void execute(const Workload& w, Result& res) {
     if (sim::alloc_env().recycled()) res.probe("recycled_blocks", sim::alloc_env().recycled());
 }
 
-const sim::HarnessDef def = {"C16", true, 120, generate, execute, nullptr};
+const sim::HarnessDef def = {"C16", true, 30, generate, execute, nullptr};
 
 } // namespace
 
